@@ -537,7 +537,7 @@ func report(o checkOpts, w *World, reports []*funcReport, obls []*Obligation, un
 	var uncovered []string
 	if o.prop == "C10" {
 		for k := range reach {
-			if isRepoKey(k) && w.specs.Contracts[k] == nil {
+			if isRepoKey(k) && w.specs.Contracts[k] == nil && !strings.Contains(k, "Mock") {
 				uncovered = append(uncovered, shortKey(k))
 			}
 		}
